@@ -47,7 +47,7 @@ class HashsumStr(NonEmptyStr, pattern="[0-9a-fA-F]+"):
 _hashalg_regex = f"(?:{'|'.join(_hash_alg.keys())})"
 
 
-class QualHashsumStr(HashsumStr, pattern=_hashalg_regex + r":[0-9a-fA-F]+"):
+class QualHashsumStr(NonEmptyStr, pattern=_hashalg_regex + r":[0-9a-fA-F]+"):
     """Hashsum string, prepended by the used algorithm."""
 
 
